@@ -282,11 +282,16 @@ def _where(root, err):
         if not nodes:
             return ""
         node = nodes[0]
+        # a child standing next to <c:delete/> in c:dLbls / c:dLbl is its own mechanism (the two exclude each other)
+        par = node.getparent()
+        mark = ""
+        if par is not None and isinstance(par.tag, str) and par.tag in (q(NS["c"], "dLbls"), q(NS["c"], "dLbl")) and par.find(q(NS["c"], "delete")) is not None:
+            mark = "(beside-c:delete)"
         chain = []
         while node is not None and len(chain) < 3:
             chain.append(pfx_tag(node.tag))
             node = node.getparent()
-        return "/".join(reversed(chain))
+        return "/".join(reversed(chain)) + mark
     except Exception:
         return ""
 
